@@ -493,6 +493,35 @@ def likeLitGo (pending : Bool) : Str → Option Str
 
 def likeLiteral (p : Str) : Option Str := likeLitGo false p
 
+/-- translate/format.go `newlineToCommentReplacer` = `strings.NewReplacer("\\r\\n", "\\n-- ", "\\r", "\\n-- ", "\\n", "\\n-- ")`;
+`afterCR` = the previous character was a `\\r` that has already been replaced (so a following `\\n` belongs to it) -/
+def nlGo (afterCR : Bool) : Str → Str
+  | [] => []
+  | c :: cs =>
+    if c = '\n' then (if afterCR then nlGo false cs else '\n' :: '-' :: '-' :: ' ' :: nlGo false cs)
+    else if c = '\r' then '\n' :: '-' :: '-' :: ' ' :: nlGo true cs
+    else c :: nlGo false cs
+
+/-- translate/format.go `FromCypher`, steps 3–4: the Cypher text (as the emitter rendered it for the given
+`stripLiterals`, white space trimmed) becomes the debug comment in front of the statement:
+`"-- " + newlineToCommentReplacer(text) + "\\n"`. The code applies the replacer for BOTH values of `stripLiterals`
+(back-ticked keys, variables and aliases are not literals and survive stripping). -/
+def commentHeader (cypherText : Str) (_stripLiterals : Bool) : Str :=
+  '-' :: '-' :: ' ' :: (nlGo false cypherText ++ ['\n'])
+
+/-- line discipline of a text as the server's lexer sees it: every line (lines end at `\\n` or `\\r`) starts with `--` -/
+inductive LineSt where
+  | start | dash1 | mid
+  deriving DecidableEq, Repr
+
+def linesCommented : LineSt → Str → Bool
+  | .start, [] => true
+  | .dash1, [] => false
+  | .mid, [] => true
+  | .start, c :: cs => if c = '-' then linesCommented .dash1 cs else false
+  | .dash1, c :: cs => if c = '-' then linesCommented .mid cs else false
+  | .mid, c :: cs => linesCommented (if isNl c then .start else .mid) cs
+
 /-! ## identifier safety -/
 
 def isAsciiIdentStart (c : Char) : Bool := isAsciiLetter c || c == '_'
